@@ -211,4 +211,7 @@ func (g *streamEng) tables(n *simnode.Node) ([]tableView, error) {
 
 func (g *streamEng) resetGlobals(k int) { stream.VerifC05ResetMergeSemaphore(k) }
 
-func (g *streamEng) holdSites() []string { return nil }
+func (g *streamEng) holdSites() []string {
+	return []string{"query_vectorized.go:fillFromScanner#2", "block_scanner.go:scan#1", "block_scanner.go:scan#2", "block_scanner.go:scan#3", "block_scanner.go:scan#4",
+		"block_scanner.go:scan#5", "block_scanner.go:scan#6"}
+}
